@@ -166,3 +166,5 @@ def run(repo, chk):
     ok = fmr.has("return Total(sel, close=self._make_emitter(sel))", exactly=lits("probe_type != 'total' and (sel.focus or probe_type == 'immediate')", False)) \
         and bool(imm) and all({"probe_type != 'total'", "probe_type == 'immediate' or sel.focus"} <= set(c) for c in imm) and ends_in_jump(mr.node.body)
     chk.ob("R07.5", "probe.Probe._make_rule:total-for-focus-free-or-forced", ok, mr.where, "a selector without focus, or probe_type='total', uses a Total accumulator whose close function is the emitter")
+    from .shared import activation_integrity_obligations
+    activation_integrity_obligations(repo, chk, "R07.1", "aggregating probes")
